@@ -447,8 +447,20 @@ class Transaction:
             if rdataset.rdclass != self.manager.get_class():
                 raise ValueError(f"{method} has objects of wrong RdataClass")
             if rdataset.rdtype == dns.rdatatype.SOA:
-                _, _, origin = self._origin_information()
-                if name != origin:
+                absolute, relativize, origin = self._origin_information()
+                soa_name = name
+                if absolute is not None:
+                    # The owner name may be given relative or absolute, so
+                    # compare it in the manager's relativity.
+                    if soa_name.is_absolute():
+                        if relativize and soa_name.is_subdomain(absolute):
+                            soa_name = soa_name.relativize(absolute)
+                    elif not relativize:
+                        try:
+                            soa_name = soa_name.derelativize(absolute)
+                        except dns.name.NameTooLong:
+                            pass
+                if soa_name != origin:
                     raise ValueError(f"{method} has non-origin SOA")
             self._raise_if_not_empty(method, args)
             if not replace:
